@@ -146,4 +146,55 @@ def strContains : Str → Str → Bool
   | [], needle => needle.isEmpty
   | c :: t, needle => needle.isPrefixOf (c :: t) || strContains t needle
 
+/-! ### `str.count` of one character, sets of hashable values -/
+
+/-- `s.count(c)` for a one-character string `c` (occurrences of one character cannot overlap) -/
+def strCount1 (s : Str) (c : Char) : Nat := s.count c
+
+/-- `x.add(v)` on a set, kept as a duplicate-free list in insertion order -/
+def setAdd {α} [BEq α] (x : List α) (v : α) : List α := if x.contains v then x else x ++ [v]
+
+/-- `x.discard(v)` on a set (no error if absent) -/
+def setDiscard {α} [BEq α] (x : List α) (v : α) : List α := x.filter (· != v)
+
+/-- `set(xs)`: the distinct items in order of first occurrence -/
+def setOfList {α} [BEq α] (l : List α) : List α := l.foldl setAdd []
+
+/-- running a generator to its end (`list(g)`, `set(g)`): its items, or the exception that ends it -/
+def genList {α} (g : List α × Option PyExc) : Py (List α) :=
+  match g.2 with
+  | some e => .error e
+  | none => .ok g.1
+
+/-- `sep.join(xs)` on strs -/
+def strJoin (sep : Str) (xs : List Str) : Str := List.intercalate sep xs
+
+/-! ### `str.find` of one character, slices of strs, generator functions -/
+
+/-- index of the first `c` in `s` -/
+def findChar (c : Char) : Str → Option Nat
+  | [] => none
+  | d :: ds => if d == c then some 0 else (findChar c ds).map (· + 1)
+
+/-- a slice / start index as a position `0 ≤ · ≤ len` (negative: from the end; clamped) -/
+def normIdx (len : Nat) (i : Int) : Nat :=
+  if i < 0 then (len + i).toNat else min i.toNat len
+
+/-- `s.find(c, start)` for a one-character string `c` (`-1` if absent) -/
+def strFind1 (s : Str) (c : Char) (start : Int) : Int :=
+  match findChar c (s.drop (normIdx s.length start)) with
+  | some k => ((normIdx s.length start + k : Nat) : Int)
+  | none => -1
+
+/-- `s[a:b]` on a str -/
+def strSlice (s : Str) (a b : Int) : Str :=
+  (s.drop (normIdx s.length a)).take (normIdx s.length b - normIdx s.length a)
+
+/-- a translated generator function: its body runs in `Except (PyExc × List item)` (the items
+    yielded so far travel with the exception); the outcome in the generator protocol -/
+def genRun {α} (r : Except (PyExc × List α) (List α)) : List α × Option PyExc :=
+  match r with
+  | .ok out => (out, none)
+  | .error (e, out) => (out, some e)
+
 end SV.PyRt
